@@ -47,6 +47,11 @@ var c09Corpus = []string{
 	"SHOW DATABASE",
 	"SHOW databases",
 	"select \"select\", \"a b\" from \"from\" where \"where\" = 'x'",
+	// longer chains of everything that repeats: four joins, five terms, five items, four keys, four rows, four columns
+	"SELECT * FROM a JOIN b ON a.x = b.x JOIN c ON b.x = c.x RIGHT JOIN d ON c.x = d.x LEFT JOIN e f ON d.x = f.x",
+	"SELECT a, b, c, d, e FROM t WHERE a = 1 OR b = 2 AND c = 3 OR d = 4 AND e = 5 GROUP BY a, b, c, d, e ORDER BY a, b DESC, c ASC, d LIMIT 1",
+	"INSERT INTO t (a, b, c, d) VALUES (1, 2, 3, 4), (5, 6, 7, 8), (9, 10, 11, 12), (13, 14, 15, 16)",
+	"UPDATE t SET a = 1, b = 2, c = 3, d = 4 WHERE a = 1 AND b = 2 AND c = 3 AND d = 4",
 }
 
 type c09Sym struct {
